@@ -1,11 +1,13 @@
 //! Suite registry: one module per correspondence suite; `lookup` maps a suite name to its runner.
 pub mod curve;
 pub mod panic;
+pub mod xrate;
 
 pub fn lookup(name: &str) -> Option<fn(&str) -> String> {
     Some(match name {
         "panic" => panic::run,
         "curve" => curve::run,
+        "xrate" => xrate::run,
         _ => return None,
     })
 }
